@@ -225,6 +225,70 @@ components:
         id: {type: integer}
         next: {nullable: true, allOf: [{$ref: "#/components/schemas/Node"}]}
 `, fl("ops", "json")},
+	{"default_not_representable", `openapi: 3.0.3
+info: {title: t, version: "1"}
+paths:
+  /a:
+    get:
+      operationId: getA
+      parameters:
+        - {name: q, in: query, schema: {type: number, format: int64, default: 1.5}}
+      responses:
+        "200": {description: ok, content: {application/json: {schema: {$ref: "#/components/schemas/O"}}}}
+components:
+  schemas:
+    O:
+      type: object
+      properties:
+        n: {type: integer, format: int32, default: 3000000000}
+`, fl("ops", "params", "json", "defaults")},
+	{"form_empty_object", `openapi: 3.0.3
+info: {title: t, version: "1"}
+paths:
+  /a:
+    post:
+      operationId: postA
+      requestBody: {required: true, content: {application/x-www-form-urlencoded: {schema: {type: object}}}}
+      responses: {"200": {description: ok}}
+`, fl("ops")},
+	{"enum_constant_vs_schema", `openapi: 3.0.3
+info: {title: t, version: "1"}
+paths:
+  /a:
+    get:
+      operationId: getA
+      responses:
+        "200": {description: ok, content: {application/json: {schema: {$ref: "#/components/schemas/Obj"}}}}
+components:
+  schemas:
+    Color: {type: string, enum: [red, green]}
+    ColorRed: {type: object, properties: {x: {type: integer}}}
+    Obj: {type: object, properties: {c: {$ref: "#/components/schemas/Color"}, r: {$ref: "#/components/schemas/ColorRed"}}}
+`, fl("ops", "json", "validators")},
+	{"getter_vs_property", `openapi: 3.0.3
+info: {title: t, version: "1"}
+paths:
+  /a:
+    get:
+      operationId: getA
+      responses:
+        "200": {description: ok, content: {application/json: {schema: {$ref: "#/components/schemas/Obj"}}}}
+components:
+  schemas:
+    Obj: {type: object, properties: {foo: {type: string}, get_foo: {type: string}}}
+`, fl("ops", "json")},
+	{"validate_property", `openapi: 3.0.3
+info: {title: t, version: "1"}
+paths:
+  /a:
+    get:
+      operationId: getA
+      responses:
+        "200": {description: ok, content: {application/json: {schema: {$ref: "#/components/schemas/Obj"}}}}
+components:
+  schemas:
+    Obj: {type: object, properties: {validate: {type: string, minLength: 3}}}
+`, fl("ops", "json", "validators")},
 	{"webhooks_only", `openapi: 3.1.0
 info: {title: t, version: "1"}
 webhooks:
